@@ -235,7 +235,7 @@ def rule_utf8(facts):
     r = RuleResult("C19-UTF8", "from_utf8_unchecked is only used by the storage getters, never on bytes coming straight from a file reader", floor=1)
     allowed = ("glaredb_core::arrays::array::physical_type::", "glaredb_core::arrays::string::", "glaredb_core::arrays::array::array_buffer::")
     n = 0
-    for rec in facts.all_fns(["glaredb_core", "glaredb_ext_parquet", "glaredb_ext_csv"]):
+    for rec in facts.all_fns(["glaredb_core", "glaredb_ext_parquet", "glaredb_ext_csv"], contains="from_utf8_unchecked"):
         if "from_utf8_unchecked" not in str(rec["bbs"]):
             continue
         fn = Fn(rec)
